@@ -1049,8 +1049,20 @@ impl Gen {
                 self.other_cal_tok(&c1)
             };
             let j = i64::from(self.gen_jdn(&c1));
-            let j1 = clamp32(j + self.rng.range(-1, 1));
-            let j2 = clamp32(j + self.rng.range(-1, 1));
+            // a third of the pairs are far apart (independent day numbers, type limits included): the difference of
+            // two day numbers does not fit in 32 bits, which a comparison written as a subtraction gets wrong
+            let (j1, j2) = match self.rng.below(6) {
+                0 => (self.lim32(), self.lim32()),
+                1 => {
+                    let k = i64::from(self.gen_jdn(&c1));
+                    if self.rng.pct(50) { (j, self.lim32()) } else { (self.lim32(), k) }
+                }
+                2 => (j, self.rng.range(IMIN, IMAX)),
+                _ => (
+                    i64::from(clamp32(j + self.rng.range(-1, 1))),
+                    i64::from(clamp32(j + self.rng.range(-1, 1))),
+                ),
+            };
             e!(self, "date_cmp {} {} {} {}", c1.tok, j1, t2, j2);
         }
     }
